@@ -60,7 +60,7 @@ const POOL: [(&str, Option<&str>, &str, &str); 11] = [
     ("KwB", Some("beta"), "", ""),
     ("Flag", None, "!f\\d+", "!f"),
 ];
-const ANAMES: [&str; 8] = ["lhs", "rhs", "name", "value", "first", "rest", "xs", "ys"];
+const ANAMES: [&str; 11] = ["lhs", "rhs", "name", "value", "first", "rest", "xs", "ys", "firstB", "itemList", "n2"];
 const KINDS: [&str; 6] = ["Add", "Sub", "Call", "Neg", "Pair", "Leaf"];
 
 impl AstG {
